@@ -96,6 +96,17 @@ def _rows1d(utils, Y, pr_, pc_, w4):
         if not close(out[:, pc_ + j], want, tol):
             return (f'column {pc_ + j} of pad_edges2d({m}x{n}, pad={pr_, pc_}, windows={w4}) is not pad_edges of column {j}: '
                     f'max diff {float(np.max(np.abs(out[:, pc_ + j] - want))):.3g}')
+    # pad2d_all_rows_are_1d / extrap2d_corner_orders_agree: the whole result, corners included, is "columns, then rows"
+    # and "rows, then columns" of the 1-D function
+    wr_, wc_ = [min(w4[0], m), min(w4[1], m)], [min(w4[2], n), min(w4[3], n)]
+    cols = np.array([utils.pad_edges(Y[:, j], pr_, 'extrapolate', extrapolate_window=wr_) for j in range(n)]).T
+    cr = np.array([utils.pad_edges(cols[k], pc_, 'extrapolate', extrapolate_window=wc_) for k in range(m + 2 * pr_)])
+    rows = np.array([utils.pad_edges(Y[i], pc_, 'extrapolate', extrapolate_window=wc_) for i in range(m)])
+    rc = np.array([utils.pad_edges(rows[:, l], pr_, 'extrapolate', extrapolate_window=wr_) for l in range(n + 2 * pc_)]).T
+    for name, full in (('columns then rows', cr), ('rows then columns', rc)):
+        if not close(out, full, 1e-7 * (1 + pr_ + pc_) ** 2):
+            return (f'pad_edges2d({m}x{n}, pad={pr_, pc_}, windows={w4}) is not pad_edges applied to {name} (corners): '
+                    f'max diff {float(np.max(np.abs(out - full))):.3g}')
     return None
 
 
